@@ -135,7 +135,14 @@ impl<'a, N: Normalizer> XmlSerializer<'a, N> {
                 // we don't want to output the built-in declaration of the
                 // xml prefix. Any other declaration that involves the xml
                 // namespace is written, as names may depend on it.
-                if *namespace_id == self.xot.xml_namespace() && *prefix_id == self.xot.xml_prefix()
+                // It is written after all where an ancestor has bound the xml
+                // prefix to something else: there it is what gives the prefix
+                // its meaning back.
+                if *namespace_id == self.xot.xml_namespace()
+                    && *prefix_id == self.xot.xml_prefix()
+                    && !self
+                        .fullname_serializer
+                        .is_prefix_rebound_outside(*prefix_id, *namespace_id)
                 {
                     return Ok(OutputToken {
                         space: false,
